@@ -1,3 +1,4 @@
+import OutlineModel.Proofs.TieDedup
 import OutlineModel.Proofs.ConfigOwner
 import OutlineModel.Gen.Wiring
 /-
@@ -92,5 +93,32 @@ example : (load ownCanon exAddrOK Server.init ownCfg .none).2.1 = true := by dec
 example : authOn ownSrv.cur "tcp/:9000" (0, "s2") = none ∧ authOn ownSrv.cur "tcp/:9001" (0, "s2") = some "b" := by decide
 example : authOn ownSrv.cur "tcp/:9000" (1, "sh") = some "shared1" ∧ authOn ownSrv.cur "tcp/:9001" (1, "sh") = some "shared2" := by decide
 example : authOn ownSrv.cur "tcp/:9000" (0, "s1") = some "a" ∧ authOn ownSrv.cur "udp/:9100" (0, "ls") = some "l1" := by decide
+
+
+/-! ### The per-service key list, about the code itself
+
+`Gen.Code.newCipherListFromConfig` is TRANSLATED from cmd/outline-ss-server/main.go on every run (extract/golean.go), together
+with `MakeCipherEntry` which it calls; `shadowsocks.NewEncryptionKey`, `service.NewCipherList` and the salt generators are
+parameters, the `Update` call on the new key list is in the function's effect log. -/
+
+/-- **code_key_list_of_a_service**: the translated function never panics; it installs, with ONE `Update`, the entries of the
+    first occurrence of each raw (cipher name, secret) pair in file order, or refuses the whole service at the first key that
+    cannot be created; and when key creation fails exactly for the cipher names `canon` rejects, the ids installed are the
+    model's `dedupKeys` (the first configured id wins for a repeated pair) -/
+theorem code_key_list_of_a_service
+    (saltSize : GoRT.Opaque "shadowsocks.EncryptionKey" → Int) (newList : GoRT.Opaque "service.CipherList")
+    (newKey : String → String → GoRT.Opaque "shadowsocks.EncryptionKey" × Option String)
+    (newGen : String → GoRT.Opaque "service.ServerSaltGenerator") (rnd : GoRT.Opaque "service.ServerSaltGenerator")
+    (canon : String → Option Nat) (hcanon : ∀ c s, (newKey c s).2 = none ↔ (canon c).isSome = true)
+    (config : Gen.Code.ServiceConfig) :
+    Gen.Code.newCipherListFromConfig saltSize newList newKey newGen rnd config =
+      some (match Tie.Dedup.scan saltSize newKey newGen rnd [] [] config.Keys with
+        | none => (⟨0⟩, some "failed to create encyption key for key %v: %w", [])
+        | some l => (newList, none, [Tie.Dedup.updateEff newList l])) ∧
+    (Tie.Dedup.scan saltSize newKey newGen rnd [] [] config.Keys).map (fun l => l.map (·.Value.ID)) =
+      (dedupKeys canon (config.Keys.map Tie.Dedup.absK)).map (fun l => l.map (·.1)) := by
+  refine ⟨Tie.Dedup.newCipherList_eq saltSize newList newKey newGen rnd config, ?_⟩
+  have h := Tie.Dedup.scan_dedup saltSize newKey newGen rnd canon hcanon config.Keys [] []
+  simpa [dedupKeys] using h
 
 end OutlineModel.Props.C09
